@@ -218,12 +218,22 @@ func ruleAggCombination(r *Run, rule string, fn *ssa.Function, kind string, elem
 	score := f["Score"]
 	e := NewExpr(w)
 	var accPhi *ssa.Phi
+	var sumHelper *ssa.Function
 	e.Leaf = func(v ssa.Value) (string, bool) {
 		if accPhi != nil && v == ssa.Value(accPhi) {
 			return "acc", true
 		}
 		switch x := v.(type) {
 		case *ssa.Call:
+			// Σ over the id's score list computed by a package helper (sumScores(scores))
+			if g := staticCallee(x.Common()); g != nil && g.Pkg == w.SPkg && len(x.Call.Args) == 1 && isSumFn(w, g) {
+				if ex, ok := x.Call.Args[0].(*ssa.Extract); ok && ex.Index == 2 {
+					if _, ok := ex.Tuple.(*ssa.Next); ok {
+						sumHelper = g
+						return "acc", true
+					}
+				}
+			}
 			if b, ok := x.Call.Value.(*ssa.Builtin); ok && b.Name() == "len" {
 				// the number of scores filed under the id being emitted
 				if ex, ok := x.Call.Args[0].(*ssa.Extract); ok && ex.Index == 2 {
@@ -339,6 +349,15 @@ func ruleAggCombination(r *Run, rule string, fn *ssa.Function, kind string, elem
 			ok = len(bad) == 0 && e.S(score) == "acc" && e.S(accs[0].init) == "x"
 		}
 		r.Check(ok, rule, key, site, "score = maximum of the id's scores (take ⇔ s > max, starting from the first)", "the maximum is not computed as `if s > max { max = s }` from the first score")
+	case len(accs) == 0 && (kind == "sum" || kind == "mean") && func() bool { e.S(score); return sumHelper != nil }():
+		got := e.S(score)
+		want := "acc"
+		if kind == "mean" {
+			want = eDiv("acc", "n")
+		}
+		r.Analysed(w.Name(sumHelper))
+		r.Check(got == want, rule, key, site, "score = "+want+" with acc = "+w.Name(sumHelper)+"(scores of the id), a checked Σ",
+			fmt.Sprintf("emitted score %s; expected %s", got, want))
 	case len(accs) == 0 && kind == "sum":
 		// text: docScores[id] += score
 		ok := false
@@ -1048,6 +1067,35 @@ func ruleRanks(r *Run, rule string, fn *ssa.Function) {
 	r.Check(okBounds >= 2, rule, "ranks:bounds", site, "exchange sort compares every pair i<j", "exchange sort loop bounds do not cover every pair")
 }
 
+// isSumFn: g(xs []float32) float32 returns Σ xs: one float accumulator, init 0, update acc+x with x an element of the
+// parameter ranged over completely, and the accumulator is what every return hands back.
+func isSumFn(w *World, g *ssa.Function) bool {
+	if len(g.Params) != 1 || g.Signature.Results().Len() != 1 || !isFloat32(g.Signature.Results().At(0).Type()) {
+		return false
+	}
+	accs := accumulators(w, g, map[int]string{0: "x"})
+	if len(accs) != 1 || accs[0].Init != "0" || accs[0].Update != eAdd("acc", "x") {
+		return false
+	}
+	// x is the ranged element of the parameter
+	c := NewCanon(w)
+	ranged := false
+	allInstrs(g, func(in ssa.Instruction) {
+		if ia, ok := in.(*ssa.IndexAddr); ok && c.S(ia) == "P0[range]" {
+			ranged = true
+		}
+	})
+	if !ranged {
+		return false
+	}
+	for _, ret := range returnsOf(g) {
+		if ret.Results[0] != ssa.Value(accs[0].Phi) {
+			return false
+		}
+	}
+	return true
+}
+
 // unloadAddr: the address a loaded value was read from (or v itself).
 func unloadAddr(v ssa.Value) ssa.Value {
 	if u, ok := v.(*ssa.UnOp); ok && u.Op == token.MUL {
@@ -1096,7 +1144,12 @@ func evalBoolFn(g *ssa.Function, val func(ssa.Value) (bool, bool)) (bool, bool) 
 						}
 					}
 				}
-			case *ssa.BinOp, *ssa.UnOp, *ssa.DebugRef:
+			case *ssa.BinOp, *ssa.UnOp, *ssa.DebugRef, *ssa.FieldAddr:
+			case *ssa.Call:
+				// only calls whose value the valuation defines (pure queries such as Contains)
+				if _, ok := val(x); !ok {
+					return false, false
+				}
 			case *ssa.If:
 				c, ok := eval(x.Cond)
 				if !ok {
